@@ -62,8 +62,22 @@ let run_lpftok file =
       | _ -> print_string "?\n")
     (read_lines (open_in file))
 
+(* settings lines: the verdict of the proved cursor machine (= SettingsLexer.tokenise, theorem C13_settings_cursor_in_bounds) *)
+let run_settok file =
+  List.iter (fun l ->
+      match split_ws l with
+      | [h] ->
+        (match Model.c_parse false (bytes_of_hex h @ [z_of_int 0]) with
+         | Model.Oob -> print_string "oob\n"
+         | Model.Ok (Model.TBlank, _) -> print_string "blank\n"
+         | Model.Ok (Model.TError, _) -> print_string "error\n"
+         | Model.Ok (Model.TOk (ty, name, v), _) -> Printf.printf "ok %s %s %s\n" (hex_of_bytes ty) (hex_of_bytes name) (hex_of_bytes v))
+      | _ -> print_string "?\n")
+    (read_lines (open_in file))
+
 let () =
   match Array.to_list Sys.argv with
   | [_; "mpsline"; e; f] -> run_mpsline (e <> "0") f
   | [_; "lpftok"; f] -> run_lpftok f
+  | [_; "settok"; f] -> run_settok f
   | _ -> prerr_endline "usage: modelrun mpsline <0|1> <cases> | lpftok <cases>"; exit 2
